@@ -7,4 +7,24 @@ TEXT = {
         level='Exploration with an exact independent oracle: every quarter-LSB input over 3x the range of every format with n_word<=6 (all n_frac, all 10 modes) is enumerated completely through array and scalar carriers and four store routes; formats up to 52 bits, 15 element carriers x 9 containers x 4 routes, huge floats and complex inputs are searched with boundary-constructed Hypothesis inputs. Right level because the property is a universally quantified equation whose failure regions are boundary sets that enumeration + construction reach.',
         note=_BASE + ' Inputs are restricted to values exactly representable in their carrier and to the stated core domain.',
         technique='exhaustive small-format enumeration + Hypothesis boundary-constructed inputs vs exact Fraction reference quantizer (differential oracle)'),
+    'C03': dict(
+        level='Exploration: the wrap image of every quarter-LSB input over 3x the range of every format with n_word<=6 is enumerated completely and checked against two independent conditions (in range, congruent to the rounded input modulo 2^n_word); formats up to 52 bits, 64..256-bit words with python integers of up to 4x the word length, the shift-invariance metamorphic relation and wrap registers fed by add/sub/mul (out, out_like) are searched with Hypothesis.',
+        note=_BASE + ' Only ROUND of the reference model is used (OVERFLOW is not); shift invariance is asserted only where rounding commutes with the shift (floor/ceil/around, or trunc/fix without a sign change).',
+        technique='exhaustive small-format enumeration + Hypothesis; congruence-and-range oracle, metamorphic shift invariance, differential vs exact integer arithmetic for registers'),
+    'C05': dict(
+        level='Exploration by relational oracles that never call the reference quantizer: direction, half-LSB bound, ties-to-even, |error|<LSB, idempotence of every representable value under all 10 modes and three re-store routes, monotonicity of sorted inputs; complete for the quarter-LSB grid of every format with n_word<=6 (8 thorough), sampled to 52 bits.',
+        note=_BASE + ' Independent of model.quant, so it also guards the C01 oracle.',
+        technique='exhaustive enumeration + Hypothesis with relational (metamorphic / algebraic-law) oracles in exact Fractions'),
+    'C07': dict(
+        level='Exploration: every pair of codes of every pair of formats with n_word<=4 (n_frac -1..n_word+1) is enumerated for +,-,* (broadcast column x row) through operators, fxpmath functions and numpy ufuncs, raw and repr; all format pairs up to 52 bits with result word <=53 are sampled at their four extreme corners (which bound every other pair by monotonicity) and random expression trees of depth <=4 are evaluated against Fractions.',
+        note=_BASE + ' Growth rules in the model are written from README/docs and are themselves checked (an exact result outside the documented format is reported).',
+        technique='exhaustive pair enumeration + Hypothesis corner/expression-tree generation vs exact integer/Fraction arithmetic (differential oracle)'),
+    'C08': dict(
+        level='Exploration: exact result quantized by the reference model into the imposed format under the governing configuration, with independent random modes on x, y and the target so that a wrong governing config or a double rounding is visible; exhaustive code pairs for n_word<=4 format pairs x 4 policies x 3 ops x 10 modes, Hypothesis for 2<=n_word<=12 over sizing / constant (both sides, same/best) / out / out_like (kwarg and config routes) / raw vs repr / unary ops.',
+        note=_BASE + ' For unrepresentable unary results only an in-range code with a raised flag is required (statement latitude).',
+        technique='exhaustive + Hypothesis generated configurations vs reference quantizer of the exact Fraction result (differential oracle)'),
+    'C09': dict(
+        level='Exploration: every code pair (divisor != 0) of every pair of formats with n_word<=4 (5 thorough) for /, //, % under three roundings, raw and repr, against exact Fractions (exact-when-representable, <1 LSB otherwise, exact floor and modulo, identity (x//y)*y+x%y==x through the library); Hypothesis random pairs with result word <=53 biased to extreme and negative inexact quotients.',
+        note=_BASE + ' Operand pairs whose aligned intermediate needs >=63 bits are a listed known finding (int64 raw kernels), classified from the formats alone.',
+        technique='exhaustive pair enumeration + Hypothesis vs exact Fraction quotient/floor/modulo (differential + algebraic identity)'),
 }
